@@ -22,6 +22,8 @@ def payload(n, kind):
         return 't%d %s' % (n, ['', 'é', '  "q"', 'x' * 200][n % 4])
     if kind == 'json':
         return {'n': n, 's': ['a', 'é☃', '"\\'][n % 3], 'l': [n, None, True, 1.5]}
+    if n % 6 == 0:
+        return bytes([n % 256])[:n % 12 // 6]            # an empty / one-byte binary payload
     return bytes([n % 256, 0, 255, 30]) + str(n).encode()
 
 
